@@ -17,7 +17,7 @@ def main():
     import pybigtools
 
     files = json.load(open(manifest))
-    fills = [(0.0, math.nan), (-1.0, -7.0), (math.nan, 0.0)]
+    fills = [(0.0, math.nan), (-1.0, -7.0), (math.nan, 0.0), (5.0, 2.5)]
     stats = {"evaluations": 0, "calls": 0, "per_base_calls": 0, "exact_integral_bins": 0,
              "exact_fractional_bins": 0, "inexact_calls": 0, "oob_cells": 0, "dont_care_partial_oob_bins": 0,
              "bigwig_files": 0, "bigbed_files": 0}
